@@ -216,6 +216,8 @@ def overlong_rescan_section(rng, run, quick):
                 octets = head + body + tail
                 free = len(octets) - 3
                 for mask in range(1 << free):
+                    if quick and free >= 6 and mask and (mask + extras + len(head_kind)) % 2:
+                        continue                                 # quick: half of the 64 patterns of the longest packets
                     lens = (1, 2, 3, 4) if (mask and not quick) else ((1 + k % 4,) if mask else (0,))
                     for g in lens:
                         hg = k % 2 if mask else 0                      # head bytes: back to back, or one gap each
@@ -525,7 +527,7 @@ def check_C01(rep):
     rep.assume("the device address is stable while rx_active is high and in the cycle it falls (where it is sampled); "
                "it may change in any later cycle")
     rep.assume("after a domain reset in the middle of a packet, what the detector reports for the rest of that "
-               "packet is not constrained; a reset clears the owed event and the frame number")
+               "packet is not constrained; a reset clears the owed event")
     rep.assume("an event is reported in one of the %d cycles starting with the first cycle rx_active is low "
                "(which one is left free)" % (LAT + 1))
     base0 = {"Mode": '"token"', "Lat": LAT, "MinGap": MIN_GAP}
@@ -533,7 +535,7 @@ def check_C01(rep):
     if quick:
         mcs = [dict(base, PidBytes={0xE1, 0xB4, 0xA5, 0xF1, 0xC3}, Payloads={5, 682}, Addrs={0, 5},
                     MaxPackets=2, MaxExtra=1, MaxResets=0),
-               dict(base, PidBytes={0xE1, 0xA5, 0xF1}, Payloads={5, 682}, Addrs={0, 5},
+               dict(base, PidBytes={0xE1, 0xA5}, Payloads={5}, Addrs={0, 5},
                     MaxPackets=2, MaxExtra=1, MaxResets=1),
                dict(base0, FilterByAddress=False, PidBytes={0xE1, 0xB4, 0xA5, 0xF1}, Payloads={5, 682}, Addrs={0, 5},
                     MaxPackets=1, MaxExtra=1, MaxResets=1)]
@@ -952,6 +954,13 @@ def timer_stimuli(rng, config, speeds, quick, reduced=False):
                 stim += seg(s, th + d + 1, via=rng.randrange(12))
         stim += seg(s, ref[2] + 3)
         out.append(stim)
+    # every start source on its own (each attached interface / subordinate / bare start signal), and all at once
+    stim = []
+    for via in (0, 1, 2, 3, "all"):
+        for s in speeds:
+            ref = tab.get(s, tab[FULL])
+            stim += seg(s, ref[0] + 3, via=via)
+    out.append(stim)
     # speed switches in mid-count (the indication follows the currently selected speed)
     if len(speeds) > 1 and not reduced:
         for _ in range(3 if quick else 20):
@@ -1011,6 +1020,9 @@ def token_timer_stimulus(rng, speeds, config):
             st.packet(token_octets("SOF", rng.randrange(2048)))                  # does not start the timer
         else:
             st.packet(token_octets("OUT", v11 ^ 1))                              # foreign address: no start
+        if rng.random() < 0.3:
+            sp = rng.choice(speeds)
+            st.set_speed(sp)                  # the speed changes right after the token (the timer follows the new one)
         ref = tab.get(sp, tab[FULL])
         st.idle(rng.choice([ref[0] + 3, ref[0] + 3, 1, ref[0], ref[2] + 3]))
         if rng.random() < 0.3:
